@@ -76,7 +76,13 @@ def run_case(job):
                 pt = oqupy.PtTempo(bath, start, end, params).get_process_tensor(progress_type="silent")
                 if len(pt) != case["n"]:
                     out.append({"what": "pt-length", "expected": case["n"], "observed": len(pt)})
-                dyn = oqupy.compute_dynamics(oqupy.System(h), initial_state=PLUS, process_tensor=pt,
+                ptarg = pt
+                if m % 2 == 1:
+                    # a second environment that is switched off (a trivial process tensor fits any grid) next to it
+                    from oqupy.process_tensor import TrivialProcessTensor
+                    ptarg = [pt, TrivialProcessTensor(hilbert_space_dimension=2)] if m % 4 == 1 else \
+                        [TrivialProcessTensor(hilbert_space_dimension=2), pt]
+                dyn = oqupy.compute_dynamics(oqupy.System(h), initial_state=PLUS, process_tensor=ptarg,
                                              start_time=start, progress_type="silent")
                 times, states = dyn.times, dyn.states
         elif api == "cd":
